@@ -147,6 +147,13 @@ class Ctx(object):
         if reason not in self.inconclusive:
             self.inconclusive.append(reason)
 
+    def checkpoint(self):
+        """Writes what was observed so far: if the shard dies later (a hang that holds the GIL), the launcher still
+        reads these observations (and reports the death of the shard as well)."""
+        prefix = getattr(self, "checkpoint_prefix", None)
+        if prefix:
+            write_shard_result(self, prefix)
+
     def time_left(self):
         if self.deadline is None:
             return 1e9
